@@ -51,7 +51,7 @@ def make_set(rng, tier, stress):
                        notifs=(0, 2), groups=(0, 2), syntax='rich',
                        features=['traps', 'compliance', 'capabilities', 'types', 'smi_tc', 'defval',
                                  'defval_zero', 'defval_bits', 'defval_oid', 'defval_bin_octets',
-                                 'defval_empty_string', 'defval_empty_hex', 'split_imports'],
+                                 'defval_empty_string', 'defval_empty_hex', 'split_imports', 'odd_labels'],
                        text_fn=(hostile_text if rng.random() < 0.25 else None),
                        p_hyphen=rng.choice([0.0, 0.3, 0.6]), p_cross_parent=0.7, p_foreign_index=0.4,
                        p_foreign_member=0.4, p_chain=0.6)
